@@ -1139,13 +1139,50 @@ theorem sim_expansion (cx : Btclib.Ctx) (sc : Bytes) (st : St) (cst : Core.State
         exact ⟨3, _, by omega, by omega, ⟨rfl, rfl, h3, hc4⟩, rfl, iter3_more cx _ _ hwb⟩
 
 
+/-! ### bytes from OP_CHECKSIGADD up -/
+
+theorem execStackOp_high (cx : Core.Ctx) (stack alt : List Bytes) (c : Nat) (h : c ≥ 0xba) :
+    Core.execStackOp cx stack alt c = none := by
+  unfold Core.execStackOp
+  split <;> first | omega | rfl
+
+theorem kind_high (c : Nat) (h : c ≥ 0xba) : kind c = .unknown := by
+  unfold kind
+  repeat rw [if_neg (by omega)]
+
+/-- OP_CHECKSIGADD (not a legacy / v0 op code) and the unnamed bytes 0xbb..0xff: refused by both when reached -/
+theorem disp_high (cx : Btclib.Ctx) (sc : Bytes) (t : Nat) (raw : Bytes) (st1 : St) (s1 : Core.State) (ht : t ≥ 0xba) :
+    DispOk cx sc t st1 s1 ⟨t, [], raw⟩ true := by
+  have hnp' : (decide (t ≤ 0x4e)) = false := by simp; omega
+  have hnr : Core.inConditionalRange t = false := by
+    unfold Core.inConditionalRange Core.OP_IF Core.OP_ENDIF
+    simp only [Bool.and_eq_false_imp, decide_eq_true_eq, decide_eq_false_iff_not]; omega
+  have he : Core.execPlain (coreCx cx sc) s1.pos s1.opcodePos s1.m t = .error .BAD_OPCODE := by
+    unfold Core.execPlain
+    rw [execStackOp_high _ _ _ _ ht]
+    have a1 : ¬ t = Core.OP_CODESEPARATOR := by unfold Core.OP_CODESEPARATOR; omega
+    have a2 : ¬ (t = Core.OP_CHECKSIG ∨ t = Core.OP_CHECKSIGVERIFY) := by
+      unfold Core.OP_CHECKSIG Core.OP_CHECKSIGVERIFY; omega
+    have a4 : ¬ t = Core.OP_CHECKMULTISIG := by unfold Core.OP_CHECKMULTISIG; omega
+    have a5 : ¬ t = Core.OP_CHECKMULTISIGVERIFY := by unfold Core.OP_CHECKMULTISIGVERIFY; omega
+    simp only [a1, a2, a4, a5, if_false]
+    have hsv : ((coreCx cx sc).sigversion == Core.SigVersion.BASE || (coreCx cx sc).sigversion == Core.SigVersion.WITNESS_V0) = true :=
+      sv_counted cx sc
+    split
+    · simp [hsv]
+    · rfl
+  unfold DispOk Core.stepExec
+  simp only [Bool.true_and, hnp', Bool.false_eq_true, if_false, hnr, if_true, he, Except.map]
+  unfold dispatch
+  simp only [kind_high t ht]
+
 /-! ### assembly -/
 
 /-- the op codes the loop-level refinement speaks about -/
 def coveredCode (c : Nat) : Bool :=
   c ≤ 0x4e || (0x51 ≤ c && c ≤ 0x60) || c == 0x61 || nopNs.contains c || Refine.covered.contains c || c == 0x79 || c == 0x7a
   || c == 0xb1 || c == 0xb2 || c == 0x63 || c == 0x64 || c == 0x65 || c == 0x66 || c == 0x67 || c == 0x68 || badOps.contains c
-  || c == 0x88 || c == 0x9d
+  || c == 0x88 || c == 0x9d || decide (0xba ≤ c)
 
 /-- the scripts the loop-level refinement speaks about: every instruction Core's walk reads is a covered op code -/
 def covered (script : Bytes) : Bool := (parse script).1.all (fun op => coveredCode op.code)
@@ -1208,7 +1245,7 @@ theorem sim_op_covered (cx : Btclib.Ctx) (sc : Bytes) (st : St) (cst : Core.Stat
         · exact absurd h p
       simp only [coveredCode, Bool.or_eq_true, decide_eq_true_eq, Bool.and_eq_true, beq_iff_eq,
         List.contains_iff_mem] at hcov
-      rcases hcov with ((((((((((((((((h | h) | h) | h) | h) | h) | h) | h) | h) | h) | h) | h) | h) | h) | h) | h) | h) | h
+      rcases hcov with (((((((((((((((((h | h) | h) | h) | h) | h) | h) | h) | h) | h) | h) | h) | h) | h) | h) | h) | h) | h) | h
       · -- OP_0
         have h0 : c.toNat = 0 := by omega
         rw [hrange_of (by omega)]
@@ -1252,6 +1289,8 @@ theorem sim_op_covered (cx : Btclib.Ctx) (sc : Bytes) (st : St) (cst : Core.Stat
         exact disp_badop cx sc _ _ st1 s1 h
       · exact absurd ⟨Or.inl h, hrange_of (by omega)⟩ hexp
       · exact absurd ⟨Or.inr h, hrange_of (by omega)⟩ hexp
+      · rw [hrange_of (by omega)]
+        exact disp_high cx sc _ _ st1 s1 h
 
 
 theorem parseOps_length (f : Nat) (s : Bytes) : (parseOps f s).1.length ≤ s.length := by
